@@ -79,6 +79,9 @@ PROP = dict(
         "extra_currencies_carried is the field-level round trip (through C05 marshal_unmarshal_sound)",
     ],
     partial=[
+        "the expiry of the Send / SendV2 path and of CreateMessageBody without ValidUntil (now + message lifetime, default 3 min or "
+        "WithMessageLifetime) is checked by the oracle go.m.expiry on the decoded captured message (window +-3 s, default / 1 min / "
+        "1 h) and stated in the model by C15 send_expiry_is_now_plus_lifetime; the wall clock is an input of the model",
         "'verifies against no other key' is proved for other HONESTLY GENERATED keys only (false of Go for small-order keys: "
         "oracle go.m.smallkey), and both it and 'stops verifying if any bit changes' CONDITIONALLY on the idealised "
         "signature scheme and collision-freedom (verify_rejects_other_key(_highload), verify_rejects_changed_body, "
